@@ -317,6 +317,18 @@ def call_module(run, path, args, kwargs, node):
         return args[0]
     if name in ('numpy.nanmean', 'numpy.nanvar', 'numpy.nanstd'):
         return np_nanstat(run, name.split('.')[1], args[0])
+    if name in ('math.exp', 'math.log', 'math.floor', 'math.log1p') and len(args) == 1 and isinstance(args[0], SNum):
+        x = args[0].real()
+        if name == 'math.log1p':
+            return SNum(LOG(1 + x))
+        if name == 'math.floor':
+            return SNum(FLOOR(x))
+        return SNum({'math.exp': EXP, 'math.log': LOG}[name](x))
+    if name.startswith('ixai.'):
+        # a module-level helper of the library without a contract: its body (read from its module) is executed in place
+        r = run.inline_module_function(name, args, kwargs)
+        if r is not sx._NO_HELPER:
+            return r
     raise sx.Unsupported(f"line {run.cur_line}: library function {name}")
 
 
@@ -589,6 +601,10 @@ def call_builtin(run, name, args, kwargs, node):
             raise sx.Unsupported("range with a step")
         n = z3.If(hi >= lo, hi - lo, 0)
         return sx.Iter('seq', n=z3.simplify(n), at=lambda i: SNum(z3.simplify(lo + i)))
+    if name == 'tuple' and len(args) == 1 and isinstance(args[0], (SList, SSet)):
+        return args[0]              # an immutable view of the same elements (nothing in the library mutates it)
+    if name == 'dict' and len(args) == 1 and not kwargs and isinstance(args[0], SDict):
+        return SDict(args[0].typ, args[0].get())
     if name == 'sorted' and len(args) == 1 and not kwargs:
         x = args[0]
         if isinstance(x, DictView) and x.what == 'keys':
@@ -861,6 +877,16 @@ def call_method(run, recv, name, args, kwargs, node):
             return NONE
         if name == 'copy':
             return SSet(st, recv.get())
+        if name in ('difference', 'union', 'intersection') and len(args) == 1:
+            other = to_set(run, args[0])
+            if other.typ != st:
+                raise sx.Unsupported("set operation on differently typed sets")
+            k = z3.Const(fresh_name('sk'), st.k.sort())
+            r = run.fresh(st, 'setop')
+            body = {'difference': z3.And(recv.dom[k], z3.Not(other.dom[k])), 'union': z3.Or(recv.dom[k], other.dom[k]),
+                    'intersection': z3.And(recv.dom[k], other.dom[k])}[name]
+            run.assume(sym.forall([k], r.dom[k] == body, [r.dom[k]]))
+            return r
     if isinstance(recv, SList) and name == 'reshape' and getattr(recv, 'is_1d_array', False):
         # arr.reshape(1, -1) of a 1-d array: one row
         if len(args) == 2 and all(isinstance(a, SNum) for a in args) and z3.is_true(z3.simplify(args[0].t == 1)) \
